@@ -304,6 +304,97 @@ def id_case(ctx, idx, res):
     res.sig = ('id-family', len(pool))
 
 
+def chunk_case(ctx, idx, res):
+    """result-target forms against text and attribute runs whose lengths sit on the internal buffer sizes (100-unit text buffer of the
+    source-tree target, 512-unit writer / stream buffers, 8 KB file buffer, callback chunking), incl. multi-unit characters"""
+    r = rng_for(ctx.seed, 'c05c', idx)
+    d = ctx.drv('plain')
+    wd = os.path.join(ctx.workdir, 'c05')
+    os.makedirs(wd, exist_ok=True)
+    outpath = os.path.join(wd, 'outc.bin')
+    fill = r.choice(['x', 'x', 'ab', '\u00e9', '\u20ac', '\U0001f600'])
+    def run_len():
+        n = r.choice([0, 1, 20, 98, 99, 100, 101, 102, 200, 510, 511, 512, 513, 1023, 1024, 1025, 4095, 4096, 4097, 8191, 8192, 8193, r.randint(1, 9000)])
+        return (fill * (n // len(fill) + 1))[:n] if len(fill) == 1 or n % len(fill) == 0 else (fill * (n // len(fill) + 1))[:n - (n % len(fill))]
+    items = []
+    parts = []
+    for i in range(r.choice([1, 2, 4])):
+        a, b, c = run_len(), run_len(), run_len()
+        parts.append('<xsl:variable name="a%d" select="\'%s\'"/><xsl:variable name="b%d" select="\'%s\'"/>' % (i, a, i, b))
+        k = r.random()
+        if k < 0.4:
+            items.append('<p><xsl:value-of select="$a%d"/>: <xsl:value-of select="$b%d"/></p>' % (i, i))
+        elif k < 0.6:
+            items.append('<p q="{$a%d}" z="{$b%d}">%s<xsl:value-of select="$b%d"/><e/><xsl:value-of select="$a%d"/></p>' % (i, i, c[:50], i, i))
+        elif k < 0.8:
+            items.append('<p><xsl:text>s</xsl:text><xsl:value-of select="$a%d"/><xsl:comment><xsl:value-of select="substring($cs, 1, string-length($b%d) mod 300)"/></xsl:comment><xsl:value-of select="$b%d"/></p>' % (i, i, i))
+        elif ord(fill[0]) < 0x10000:
+            # (substring() counts UTF-16 units in this library, a C02 matter: never cut a run of supplementary characters)
+            items.append('<p><xsl:for-each select="//*"><xsl:value-of select="substring($a%d, 1, position() * 37)"/></xsl:for-each><xsl:value-of select="$b%d"/></p>' % (i, i))
+        else:
+            items.append('<p><xsl:for-each select="//*"><xsl:value-of select="$a%d"/></xsl:for-each><xsl:value-of select="$b%d"/></p>' % (i, i))
+    method = r.choice(['xml', 'xml', 'xml', 'text', 'html'])
+    enc = r.choice(['UTF-8', 'UTF-8', 'UTF-16', 'ISO-8859-1'])
+    parts.append('<xsl:variable name="cs" select="\'%s\'"/>' % ('c' * 300))
+    xsl = (gen_xslt.HEAD % '') + '<xsl:output method="%s" encoding="%s"/>' % (method, enc) + ''.join(parts) + '<xsl:template match="/"><out>%s</out></xsl:template></xsl:stylesheet>' % ''.join(items)
+    xml = '<doc><a/><b/><c><d/></c></doc>'
+    t = d.call(cmd='tnew')['t'].decode()
+    payload = {'stylesheet': xsl, 'document': xml}
+    res.sig = ('chunk', method, enc, fill)
+    try:
+        base = d.call(cmd='transform', t=t, src='stream', sty='stream', tgt='stream', xml=xml, xsl=xsl.encode('utf-8'))
+        b_ok, b_out = base.get('status') == b'0', base.get('out', b'')
+        b_tree = None
+        if b_ok and method == 'xml':
+            try:
+                b_tree = bytes_tree(b_out.decode('utf-16').encode('utf-8') if enc == 'UTF-16' else b_out.decode('latin-1').encode('utf-8') if enc == 'ISO-8859-1' else b_out)
+            except Exception:
+                b_tree = None
+        forms = [('file', None), ('callback', None), ('callback', 'chunks')] + ([('dom', None), ('sourcetree', None)] if method == 'xml' else [])
+        for tgt, extra in forms:
+            f = dict(cmd='transform', t=t, src='parsed' if tgt == 'callback' else r.choice(['stream', 'parsed']), sty='compiled' if tgt == 'callback' else 'stream', tgt=tgt, xml=xml, xsl=xsl.encode('utf-8'), outpath=outpath)
+            if os.path.exists(outpath):
+                os.unlink(outpath)
+            rp = d.call(**f)
+            res.count('chunk_forms_compared')
+            label = 'cpp/%s' % tgt
+            if (rp.get('status') == b'0') != b_ok:
+                res.viol('chunk|status|tgt=%s' % tgt, 'result target %s: status %s (%s), the stream target %s (%s) [method %s, encoding %s, runs of %r]' % (
+                    tgt, rp.get('status'), rp.get('err', b'')[:100], base.get('status'), base.get('err', b'')[:100], method, enc, fill), dict(payload, form=label))
+                continue
+            if not b_ok:
+                continue
+            out = rp.get('out', b'')
+            if tgt in ('dom', 'sourcetree'):
+                if b_tree is None:
+                    continue
+                tr = dump_tree(out.decode('utf-8'))
+                if tr != b_tree:
+                    res.viol('chunk|tree|tgt=%s' % tgt, 'collected as %s the result tree differs from the parsed stream output: %s' % (tgt, refxml.first_diff(('root', tr), ('root', b_tree))[:300]), dict(payload, form=label))
+                else:
+                    res.count('chunk_identical_trees')
+            elif out != b_out:
+                i = next((j for j in range(min(len(out), len(b_out))) if out[j] != b_out[j]), min(len(out), len(b_out)))
+                res.viol('chunk|bytes|tgt=%s' % tgt, 'result target %s differs from the stream target at byte %d of %d / %d' % (tgt, i, len(out), len(b_out)), dict(payload, form=label))
+            else:
+                res.count('chunk_identical_bytes')
+        # C API data buffer and handler
+        xp, sp, op = [os.path.join(wd, n) for n in ('cin.xml', 'cin.xsl', 'cout.bin')]
+        open(xp, 'w').write(xml)
+        open(sp, 'w', encoding='utf-8').write(xsl)
+        for form in ('todata', 'tohandler', 'tofile'):
+            if form == 'todata' and enc == 'UTF-16':
+                continue            # the data buffer is a NUL-terminated char*: not defined for UTF-16 output
+            rp = d.call(cmd='capi', form=form, fromstream='0', xml=xml, xsl=xsl.encode('utf-8'), xmlpath=xp, xslpath=sp, outpath=op, params=b'')
+            res.count('chunk_forms_compared')
+            if (rp.get('status') == b'0') != b_ok or (b_ok and rp.get('out', b'') != b_out):
+                res.viol('chunk|capi|%s' % form, 'C API %s: status %s, %d bytes; the stream target: status %s, %d bytes [method %s, encoding %s]' % (form, rp.get('status'), len(rp.get('out', b'')), base.get('status'), len(b_out), method, enc), dict(payload, form='capi/' + form))
+            else:
+                res.count('chunk_identical_bytes')
+    finally:
+        d.call(cmd='tdel', t=t)
+
+
 def generalize(c):
     if c[0] == 'cpp':
         return 'cpp|src=%s|sty=%s|tgt=%s' % (c[1], c[2], c[3])
@@ -324,6 +415,7 @@ def main():
     chk.run_cases('c05', 'case', range(n))
     chk.run_cases('c05', 'doctype_probe', range(8))
     chk.run_cases('c05', 'id_case', range(n // 3))
+    chk.run_cases('c05', 'chunk_case', range(n // 3))
     chk.finish(min_nontrivial=60, required_stats=('identical_bytes', 'identical_trees', 'both_fail', 'form_capi', 'form_cli', 'form_src_builder', 'form_src_xerceswrap', 'form_tgt_callback', 'form_sty_pi'))
 
 
